@@ -26,6 +26,7 @@ func init() {
 			"C18.f inside a loop that collects route candidates no branch is decided by a variable carried over from earlier iterations (= C03.f); C18.g the path expressions are compiled from the template literals unchanged while request paths are matched decoded (= C02.l); " +
 			"C18.h a selector admits a WebService (candidate append, best-so-far update) only under the answer of a call that was given that service's pathExpr; " +
 			"C18.i a derived copy of the route table that the request path reads follows every change of it (= C11.l); " +
+			"C18.j a selector takes a route of the service's table into its candidates only under the answer of a call that was given the route's pathExpr or pathParts; " +
 			"C18.e every module RouteSelector ends in one and the same method/media stage, hands it this request, and returns its route and its error untouched; the errors a selector builds itself carry the same status as its sibling's at the same stage (no service, no route).",
 		NotDecided: "that token matching and regular-expression matching admit the same (template, URL) pairs, and that the rankings coincide beyond the clauses above: value-level relations between two algorithms on every table of the common fragment.",
 		Rules: []Rule{
@@ -45,6 +46,8 @@ func init() {
 				Doc: "Both selectors decide which WebService is responsible from the service's compiled path expression (Matcher, or the tokens kept with it): whole segments. An admission controlled by anything else - a prefix test on the root path string - admits /api for /apiary in one router only."},
 			{ID: "C18.i", Template: "T-SIBLING", Required: false, Run: ruleDerivedRegistrationState,
 				Doc: "Neither router keeps route tables of its own today. A derived copy one of them introduces (an index by token count, a snapshot) must follow every change of WebService.routes, or the router that has it answers from a stale table where its sibling reads the live one (same obligations as C11.l)."},
+			{ID: "C18.j", Template: "T-GUARD", Required: true, Run: ruleC18j,
+				Doc: "Both selectors decide whether a route's template matches the rest of the URL from what was compiled from the template: the pathExpr (regular expression) or the pathParts (tokens). A route taken from the service's table into the candidates under any other test - a comparison of path strings for 'literal' routes - is admitted for other URLs than under the sibling."},
 			{ID: "C18.e", Template: "T-SIBLING", Required: true, Run: ruleC18e,
 				Doc: "Method, Content-Type and Accept are decided in one place for both routers; a selector that post-processes the stage's answer, or answers its own stages with another status than its sibling, is observable when the router is switched."},
 		},
@@ -439,6 +442,10 @@ func ruleC18e(c *Ctx) {
 				okEr := isNilConst(er) || fromCall(p, er, stage)
 				c.check(okRt && okEr, name, "route and error of the stage are returned untouched", p.ipos(r),
 					"results #1 and #2 are the stage's (or nil)", "behind the stage call this return gives back something other than what "+p.fname(sf)+" answered: the router post-processes the shared decision")
+				// ... together with the service that was detected: the container lists the allowed methods of the
+				// service SelectRoute returns, also when the stage refused
+				c.check(!isNilConst(svc), name, "the detected service is returned with the stage's answer", p.ipos(r),
+					"result #0 is not the nil constant", "behind the stage call this return gives back no WebService: the allowed-methods computation, which asks the router for the service of a URL, finds none under this router and the sibling's under the other")
 				continue
 			}
 			// an exit of the selector's own stages: status of the error it builds
@@ -988,5 +995,180 @@ func ruleMethodLoopStateless(c *Ctx) {
 	}
 	if n == 0 {
 		c.note("-", "no loop collects Route.Method values", "-", "nothing to decide")
+	}
+}
+
+// ---------------------------------------------------------------------------
+// C18.j: a route of the selected service becomes a candidate when its template matches the rest of the URL. Both
+// selectors have that from what was compiled from the template: the route's pathExpr (RouterJSR311) or its pathParts
+// (CurlyRouter). Wherever a selector takes a route out of the service's route table (WebService.Routes() / routes)
+// into a candidate collection, a fact that holds there derives from a call that was given the route's pathExpr or
+// pathParts. A comparison of path strings for "literal" routes admits and refuses other URLs than the sibling does
+// (a route declared without a leading slash, a doubled slash).
+
+func fromRouteTemplateCall(p *Program, v ssa.Value, d int) bool {
+	if d > 6 || v == nil {
+		return false
+	}
+	switch x := v.(type) {
+	case *ssa.BinOp:
+		return fromRouteTemplateCall(p, x.X, d+1) || fromRouteTemplateCall(p, x.Y, d+1)
+	case *ssa.UnOp:
+		if x.Op == token.MUL {
+			for _, a := range p.loadOfCell(x) {
+				for _, st := range p.cellStores(a) {
+					if fromRouteTemplateCall(p, st.Val, d+1) {
+						return true
+					}
+				}
+			}
+			return false
+		}
+		return fromRouteTemplateCall(p, x.X, d+1)
+	case *ssa.Extract:
+		return fromRouteTemplateCall(p, x.Tuple, d+1)
+	case *ssa.Phi:
+		for _, e := range x.Edges {
+			if fromRouteTemplateCall(p, e, d+1) {
+				return true
+			}
+		}
+	case *ssa.Call:
+		if isBuiltinCall(x, "len") {
+			return fromRouteTemplateCall(p, x.Call.Args[0], d+1)
+		}
+		for _, a := range x.Call.Args {
+			cur := strip(a)
+			for hop := 0; hop < 3; hop++ {
+				b, f, ok := fieldLoad(cur)
+				if !ok {
+					break
+				}
+				if (f.Name() == "pathExpr" || f.Name() == "pathParts") && isRouteish(b.Type()) {
+					return true
+				}
+				cur = strip(b)
+			}
+		}
+	}
+	return false
+}
+
+// fromRouteTable: v is (a struct built around) an element of the service's route table.
+func fromRouteTable(p *Program, v ssa.Value, d int) bool {
+	v = strip(v)
+	if d > 5 || v == nil {
+		return false
+	}
+	switch x := v.(type) {
+	case *ssa.UnOp:
+		if x.Op != token.MUL {
+			return false
+		}
+		if ia, ok := x.X.(*ssa.IndexAddr); ok {
+			for _, src := range p.sources(ia.X, provDefault) {
+				if call, ok := src.(*ssa.Call); ok {
+					if cal := call.Call.StaticCallee(); cal != nil && cal.Name() == "Routes" && recvTypeName(cal) == "WebService" {
+						return true
+					}
+				}
+				if _, f, ok := fieldLoad(strip(src)); ok && f.Name() == "routes" {
+					return true
+				}
+			}
+			return false
+		}
+		if a, ok := x.X.(*ssa.Alloc); ok {
+			// a struct literal: one of its fields is the route
+			for _, sts := range p.structInits(a) {
+				for _, st := range sts {
+					if mentionsRoute(st.Val.Type(), 0) && fromRouteTable(p, st.Val, d+1) {
+						return true
+					}
+				}
+			}
+			for _, st := range p.cellStores(a) {
+				if fromRouteTable(p, st.Val, d+1) {
+					return true
+				}
+			}
+		}
+	case *ssa.IndexAddr: // &routes[i]
+		return fromRouteTable(p, &ssa.UnOp{Op: token.MUL, X: x}, d+1)
+	case *ssa.Phi:
+		for _, e := range x.Edges {
+			if fromRouteTable(p, e, d+1) {
+				return true
+			}
+		}
+	}
+	return false
+}
+
+func ruleC18j(c *Ctx) {
+	p := c.P
+	cg := p.callGraph()
+	seen := map[*ssa.Function]bool{}
+	var scope []*ssa.Function
+	for _, sel := range moduleSelectors(p) {
+		for fn := range cg.reach([]*ssa.Function{sel}, func(e Edge) bool { return e.Kind != EdgeStatic }) {
+			if !seen[fn] && fn.Blocks != nil && p.inModule(fn) {
+				seen[fn] = true
+				scope = append(scope, fn)
+			}
+		}
+	}
+	sort.Slice(scope, func(i, j int) bool { return p.fname(scope[i]) < p.fname(scope[j]) })
+	n := 0
+	for _, fn := range scope {
+		cyc := blocksOnCycles(fn)
+		facts := factsAt(fn)
+		name := p.fname(fn)
+		eachInstr(fn, func(i ssa.Instruction) {
+			call, ok := i.(*ssa.Call)
+			if !ok || !cyc[i.Block()] {
+				return
+			}
+			var elems []ssa.Value
+			if isBuiltinCall(call, "append") && isCandidateSliceType(call.Type()) && len(call.Call.Args) > 1 {
+				if sl, ok := strip(call.Call.Args[1]).(*ssa.Slice); ok {
+					if a, ok := sl.X.(*ssa.Alloc); ok {
+						for _, ref := range referrers(a) {
+							if ia, ok := ref.(*ssa.IndexAddr); ok {
+								for _, rr := range referrers(ia) {
+									if st, ok := rr.(*ssa.Store); ok && st.Addr == ssa.Value(ia) {
+										elems = append(elems, st.Val)
+									}
+								}
+							}
+						}
+					}
+				}
+			} else if cal := call.Call.StaticCallee(); cal != nil && cal != fn && p.inModule(cal) && appendsParamToReceiver(cal) && len(call.Call.Args) > 1 {
+				elems = append(elems, call.Call.Args[1])
+			}
+			taken := false
+			for _, e := range elems {
+				if fromRouteTable(p, e, 0) {
+					taken = true
+				}
+			}
+			if !taken {
+				return
+			}
+			n++
+			ok2 := false
+			for f := range facts[i.Block()] {
+				if fromRouteTemplateCall(p, f.Cond, 0) {
+					ok2 = true
+				}
+			}
+			c.check(ok2, name, "a route is admitted on the answer of what was compiled from its template", p.ipos(i),
+				"controlled by a call that was given the route's pathExpr or pathParts",
+				"a route of the service's table becomes a candidate here without a match of its path expression or of its template tokens deciding it: a comparison of path strings admits and refuses other URLs than the sibling router, which matches the compiled template")
+		})
+	}
+	if n == 0 {
+		c.undecided("-", "route admission", "-", "no place found where a selector takes a route of the service's table into its candidates")
 	}
 }
